@@ -15,3 +15,20 @@ Proof. intros H. exact (znth_nat l 2 d H). Qed.
 (* range(1, n) *)
 Lemma zrange_1_of_nat (n : nat) : zrange 1 (Z.of_nat n) 1 = map Z.of_nat (seq 1 (n - 1)).
 Proof. change 1%Z with (Z.of_nat 1) at 1. apply zrange_nat. Qed.
+
+(* a while loop that runs exactly cnt times: states st c x (c = number of passes done, x = the rest of the state) *)
+Lemma gwhile_count {S X} (st : nat -> X -> S) (Inv : nat -> X -> Prop) (cond : S -> gres bool) (body : S -> gres S) (cnt : nat) :
+  (forall c x, c < cnt -> Inv c x -> cond (st c x) = GOk true) ->
+  (forall x, Inv cnt x -> cond (st cnt x) = GOk false) ->
+  (forall c x, c < cnt -> Inv c x -> exists x', body (st c x) = GOk (st (Datatypes.S c) x') /\ Inv (Datatypes.S c) x') ->
+  forall fuel x0, cnt < fuel -> Inv 0 x0 -> exists x', gwhile fuel cond body (st 0 x0) = GOk (st cnt x') /\ Inv cnt x'.
+Proof.
+  intros Ht Hf Hb.
+  assert (H : forall k c x fuel, c + k = cnt -> k < fuel -> Inv c x ->
+            exists x', gwhile fuel cond body (st c x) = GOk (st cnt x') /\ Inv cnt x').
+  { induction k as [|k IH]; intros c x fuel Hc Hfuel HI.
+    - assert (c = cnt) by lia. subst c. destruct fuel as [|fuel]; [lia|]. rewrite gwhile_unfold, Hf by exact HI. cbn [gbind]. eauto.
+    - destruct fuel as [|fuel]; [lia|]. rewrite gwhile_unfold, Ht by (auto; lia). cbn [gbind].
+      destruct (Hb c x ltac:(lia) HI) as (x1 & E1 & HI1). rewrite E1. cbn [gbind]. apply IH; auto; lia. }
+  intros fuel x0 Hfuel HI. apply (H cnt 0 x0 fuel); auto.
+Qed.
